@@ -327,6 +327,11 @@ class C18Hibernation(Monitor):
 
     def on_deme_enter(self, deme):
         self.entered.append(deme)
+        if self.ctx.desc.get("shared") and deme.level > 0 and len(deme.current_population) == 1:
+            t = self.ctx.tree
+            par = next((p_ for p_ in t.levels[deme.level - 1] if any(c is deme for c in p_.children)), None) if t is not None else None
+            if par is not None and par.is_active and par._hibernating:
+                self.cov("sleeping_parent_with_running_one_individual_child_on_shared_problem")
         if self._hib() and deme._hibernating:
             self.v(f"a hibernating deme ran a metaepoch: {type(deme).__name__}", deme=deme.id)
 
